@@ -137,7 +137,7 @@ fn run_case(cx: &CaseCtx, rep: &mut Report) {
 		0 => vec![("versatiles", TileFormat::PBF, Comp::None), ("versatiles", TileFormat::PBF, Comp::Gzip), ("versatiles", TileFormat::PBF, Comp::Brotli), ("versatiles", TileFormat::JSON, Comp::Gzip)],
 		1 => vec![("versatiles", TileFormat::PNG, Comp::None), ("versatiles", TileFormat::JPG, Comp::Gzip), ("versatiles", TileFormat::WEBP, Comp::Brotli), ("versatiles", TileFormat::BIN, Comp::Brotli), ("versatiles", TileFormat::AVIF, Comp::None)],
 		3 => vec![("mislabelled-directory", TileFormat::PBF, if cx.case % 4 < 2 { Comp::Gzip } else { Comp::Brotli }), ("mislabelled-directory", TileFormat::JSON, Comp::Gzip)],
-		_ => vec![("mbtiles", TileFormat::PBF, Comp::Gzip), ("pmtiles", TileFormat::PNG, Comp::None), ("pmtiles", TileFormat::PBF, Comp::Brotli), ("tar", TileFormat::PBF, Comp::Gzip), ("directory", TileFormat::GEOJSON, Comp::Brotli), ("mbtiles", TileFormat::WEBP, Comp::None)],
+		_ => vec![("mbtiles", TileFormat::PBF, Comp::Gzip), ("pmtiles", TileFormat::PNG, Comp::None), ("pmtiles", TileFormat::PBF, Comp::Brotli), ("tar", TileFormat::PBF, Comp::Gzip), ("directory", TileFormat::GEOJSON, Comp::Brotli), ("mbtiles", TileFormat::WEBP, Comp::None), ("foreign-versatiles", TileFormat::PBF, Comp::Gzip), ("foreign-versatiles", TileFormat::PNG, Comp::None)],
 	};
 	let mut served: Vec<Served> = vec![];
 	let mut args: Vec<String> = vec![];
@@ -146,6 +146,22 @@ fn run_case(cx: &CaseCtx, rep: &mut Report) {
 	let combo = if group != 3 { 0 } else if cx.case % 2 == 0 { 1 + (cx.case / 8) % 3 } else { (cx.case / 8) % 4 };
 	let (flip, swap) = (combo & 1 == 1, combo & 2 == 2);
 	for (i, (container, f, c)) in specs.iter().enumerate() {
+		if *container == "foreign-versatiles" {
+			// a versatiles file from another encoder: padding between and behind the blobs, partial blocks, shuffled order
+			let opts = GenOpts { max_tiles: 60, max_level: 31, formats: vec![(*f, *c)], really_compress: true, ..Default::default() };
+			let ts = gen::gen_tileset(&mut rng, &opts);
+			let mut eo = crate::codec::ivt::EncOpts::random(&mut rng);
+			eo.gaps = true;
+			let path = dir.join(format!("s{i}.versatiles"));
+			if std::fs::write(&path, crate::codec::ivt::encode(&ts, &eo, &mut rng)).is_err() {
+				rep.inconclusive("fixture write failed");
+				return;
+			}
+			let id = format!("src{i}");
+			args.push(format!("[{id}]{}", path.display()));
+			served.push(Served { id, ts, container: "versatiles(foreign encoder)", flip: false, swap: false });
+			continue;
+		}
 		if *container == "mislabelled-directory" {
 			if i > 0 && *c != specs[0].2 {
 				continue; // one override for the whole server
